@@ -32,7 +32,7 @@ def positional(t, env=None):
 def norm(s):
     s = re.sub(r"essential_vm::(stack::Stack|memory::Memory|stack)::", "", s)
     s = re.sub(r"std::slice::<impl \[T\]>::", "slice::", s)
-    return s.replace("$1.0", "$1")
+    return s.replace("$1.0", "$1").replace("^1.0", "^1")
 
 
 class View:
@@ -114,6 +114,12 @@ class View:
         return None
 
 
+def _caret(t):
+    if t.kind == "param" and isinstance(t.a, str) and t.a.startswith("$"):
+        return M.T("param", "^" + t.a[1:], meta=t.meta)
+    return M.T(t.kind, t.a, tuple(_caret(x) for x in t.sub), t.meta)
+
+
 def closure_env(prog, parent, clo):
     """Operands the parent passes as captures of `clo`, positional in the parent."""
     pv = prog.prov(parent)
@@ -122,7 +128,8 @@ def closure_env(prog, parent, clo):
             if st["k"] == "assign" and st["rv"].get("k") == "aggr":
                 t = pv.of_rvalue(st["rv"])
                 if t.kind == "aggr" and str(t.a) == "closure:" + clo.path:
-                    return [positional(M.peel(s)) for s in t.sub]
+                    # the parent's parameters are written ^N so that they cannot be confused with the closure's own $N
+                    return [_caret(positional(M.peel(s))) for s in t.sub]
     return None
 
 
@@ -267,7 +274,7 @@ def check(ctx, rid):
             if stt is None:
                 continue
             ctx.saw(clo)
-            ob("EqRange:splits-the-2*len-words-at-len", cv.arg(stt, 0) == "$2" and cv.arg(stt, 1) == "pop($1)", clo, "split_at(%s, %s)" % (cv.arg(stt, 0), cv.arg(stt, 1)))
+            ob("EqRange:splits-the-2*len-words-at-len", cv.arg(stt, 0) == "$2" and cv.arg(stt, 1) == "pop(^1)", clo, "split_at(%s, %s)" % (cv.arg(stt, 0), cv.arg(stt, 1)))
             oks = [a_ for a_ in _alts(cv.pv.of_local(0)) if a_.kind == "aggr" and str(a_.a).endswith("Result::Ok")]
             r_ = M.peel(oks[0].sub[0]) if len(oks) == 1 else None
             sides = sorted(norm(M.render(positional(x, cv.env))) for x in r_.sub) if r_ is not None and r_.kind == "call" and re.search(EQ, r_.a) else []
@@ -379,12 +386,12 @@ def check(ctx, rid):
             ctx.saw(clo)
             for bb, t in cv.calls(r"memory::Memory::load$"):
                 got = [norm(cv.arg(t, i)) for i in range(len(t["args"]))]
-                ob("MemLoad:wiring", got == ["$3", "$2"] and env is not None, clo, "%s; load(memory, popped address) inside pop1_push1" % got)
+                ob("MemLoad:wiring", got == ["^3", "$2"] and env is not None, clo, "%s; load(memory, popped address) inside pop1_push1" % got)
                 oks = [a_ for a_ in _alts(cv.pv.of_local(0)) if a_.kind == "aggr" and str(a_.a).endswith("Result::Ok")]
                 ob("MemLoad:pushes-the-word", len(oks) == 1 and cv.rooted_at(oks[0].sub[0], r"memory::Memory::load$") is not None, clo, "closure returns Ok(load(..)?)")
             for bb, t in cv.calls(r"memory::Memory::store_range$"):
                 got = [norm(cv.arg(t, i)) for i in range(len(t["args"]))]
-                ob("StoreRange:wiring", got == ["$3", "pop($2)", "$2"] and env is not None, clo,
+                ob("StoreRange:wiring", got == ["^3", "pop(^2)", "$2"] and env is not None, clo,
                    "%s; spec stack_in [values, len, index]: the index is popped first, the words come from pop_len_words" % got)
         plw = v.calls(r"stack::Stack::pop_len_words$")
         pops = v.calls(r"stack::Stack::pop$")
